@@ -26,7 +26,7 @@ From Coq Require Import ZArith List String Bool Lia PeanoNat.
 From LV Require Import Base.Conc Base.Events.
 Import ListNotations.
 Local Open Scope Z_scope.
-Local Open Scope string_scope.
+
 
 Definition MAXH : nat := 3.            (* c_nMaxHeight *)
 Definition NKEYS : nat := 8.
@@ -240,3 +240,230 @@ Fixpoint find_position {R} (fuel : nat) (s : TL) (key : Z) (stop : bool) (own : 
            | _ => k s' o
            end) kf
   end.
+
+(** find_min_position / find_max_position *)
+Fixpoint fmin_levels {R} (fuel : nat) (n : nat) (s : TL) (ps : pos)
+  (retry : TL -> prog R) (k : TL -> pos -> prog R) (kf : prog R) {struct n} : prog R :=
+  match n with
+  | O => k s ps
+  | S lvl =>
+      g_assign s (gslot ps (2 * lvl))
+        (g_protect fuel s (gslot ps (2 * lvl + 1)) head lvl (fun r =>
+           match r with
+           | None => kf
+           | Some cur =>
+               let next ps' s' := fmin_levels fuel lvl s' ps' retry k kf in
+               let ps' := mkPos (set_lvl (pprev ps) lvl head) (set_lvl (psucc ps) lvl (fst cur)) (fst cur) (pg ps) in
+               if Nat.eqb (fst cur) null then next ps' s
+               else
+                 Act (a_ld_next (fst cur) lvl) (fun vs =>
+                   Act (a_ld_next head lvl) (fun vr =>
+                     if negb (mp_eqb (vp vr) (fst cur, false)) then retry s
+                     else if snd (vp vs) then
+                       help_remove fuel s lvl head (fst cur) (fun rs => match rs with Ok s' => retry s' | Fuel => kf end)
+                     else next ps' s))
+           end))
+  end.
+
+Fixpoint find_min_position {R} (fuel : nat) (s : TL) (ps : pos) (k : TL -> pos -> prog R) (kf : prog R) {struct fuel} : prog R :=
+  match fuel with
+  | O => kf
+  | S f => fmin_levels fuel MAXH s ps (fun s' => find_min_position f s' ps k kf) k kf
+  end.
+
+Fixpoint fmax_level {R} (fuel : nat) (s : TL) (lvl : nat) (pred : ptr) (ps : pos)
+  (retry : TL -> prog R) (k : TL -> ptr -> mptr -> prog R) (kf : prog R) {struct fuel} : prog R :=
+  match fuel with
+  | O => kf
+  | S f =>
+      g_protect fuel s (gslot ps (2 * lvl + 1)) pred lvl (fun r =>
+        match r with
+        | None => kf
+        | Some cur =>
+            if snd cur then retry s
+            else if Nat.eqb (fst cur) null then k s pred cur
+            else
+              Act (a_ld_next (fst cur) lvl) (fun vs =>
+                Act (a_ld_next pred lvl) (fun vr =>
+                  if negb (mp_eqb (vp vr) (fst cur, false)) then retry s
+                  else if snd (vp vs) then
+                    help_remove fuel s lvl pred (fst cur) (fun rs => match rs with Ok s' => retry s' | Fuel => kf end)
+                  else if Nat.eqb (fst (vp vs)) null then k s pred cur
+                  else g_copy s (gslot ps (2 * lvl)) (gslot ps (2 * lvl + 1)) (fmax_level f s lvl (fst cur) ps retry k kf)))
+        end)
+  end.
+
+Fixpoint fmax_levels {R} (fuel : nat) (n : nat) (s : TL) (pred : ptr) (ps : pos)
+  (retry : TL -> prog R) (k : TL -> pos -> prog R) (kf : prog R) {struct n} : prog R :=
+  match n with
+  | O => (* `if ( pCur.ptr() == nullptr && pPred != m_Head.head()) goto retry;`  (b75fd35) *)
+      if Nat.eqb (pcur ps) null && negb (Nat.eqb pred head) then retry s else k s ps
+  | S lvl =>
+      g_assign s (gslot ps (2 * lvl))
+        (fmax_level fuel s lvl pred ps retry
+           (fun s' pred' cur =>
+              let ps' := mkPos (set_lvl (pprev ps) lvl pred') (set_lvl (psucc ps) lvl (fst cur)) (fst cur) (pg ps) in
+              fmax_levels fuel lvl s' pred' ps' retry k kf) kf)
+  end.
+
+Fixpoint find_max_position {R} (fuel : nat) (s : TL) (ps : pos) (k : TL -> pos -> prog R) (kf : prog R) {struct fuel} : prog R :=
+  match fuel with
+  | O => kf
+  | S f => fmax_levels fuel MAXH s head ps (fun s' => find_max_position f s' ps k kf) k kf
+  end.
+
+(** insert_at_position( val, pNode, pos, f ): [Some true/false] = its result *)
+Fixpoint ia_clear_upper {R} (new : ptr) (l h : nat) (k : prog R) : prog R :=
+  (* for ( nLevel = 1; nLevel < nHeight; ++nLevel ) pNode->next( nLevel ).store( marked_node_ptr()) *)
+  match h with
+  | O => k
+  | S h' => if Nat.ltb l (l + h) then Act (a_st_next new l (null, false)) (fun _ => ia_clear_upper new (S l) h' k) else k
+  end.
+
+(** one upper level: the `while ( true )` with own-link CAS, pred CAS, renew *)
+Fixpoint ia_level {R} (fuel : nat) (s : TL) (key : Z) (new : ptr) (h l : nat) (p : mptr) (ps : pos)
+  (knext : TL -> pos -> prog R) (kdone : TL -> prog R) (kf : prog R) {struct fuel} : prog R :=
+  match fuel with
+  | O => kf
+  | S f =>
+      let succ := (psucc ps l, false) in
+      Act (a_cas_next new l p succ) (fun c =>
+        if negb (vok c) then
+          (* marked while inserting: level_unlinked( nHeight - nLevel ); find_position( val, pos, cmp, false ); return true *)
+          Act (a_fas_unl new (Z.of_nat (h - l))) (fun _ =>
+            find_position fuel s key false null ps (fun s' _ => kdone s') kf)
+        else
+          Act (a_cas_next (pprev ps l) l succ (new, false)) (fun c2 =>
+            if vok c2 then knext s ps
+            else
+              find_position fuel s key false new ps (fun s' o =>
+                match o with
+                | FpFound ps' => ia_level f s' key new h l succ ps' knext kdone kf
+                | FpNotFound ps' | FpOwnRemoved =>
+                    Act (a_fas_unl new (Z.of_nat (h - l))) (fun _ =>
+                      find_position fuel s' key false null ps (fun s'' _ => kdone s'') kf)
+                end) kf))
+  end.
+
+Fixpoint ia_levels {R} (fuel : nat) (n : nat) (s : TL) (key : Z) (new : ptr) (h l : nat) (ps : pos)
+  (kdone : TL -> prog R) (kf : prog R) {struct n} : prog R :=
+  (* for ( nLevel = l; nLevel < nHeight; ++nLevel ), n = number of levels left *)
+  match n with
+  | O => kdone s
+  | S n' => ia_level fuel s key new h l (null, false) ps (fun s' ps' => ia_levels fuel n' s' key new h (S l) ps' kdone kf) kdone kf
+  end.
+
+Definition insert_at {R} (fuel : nat) (s : TL) (key : Z) (new : ptr) (h : nat) (ps : pos)
+  (k : TL -> bool -> prog R) (kf : prog R) : prog R :=
+  ia_clear_upper new 1 (h - 1)
+    (Act (a_st_next new 0 (psucc ps 0%nat, false)) (fun _ =>
+       Act (a_cas_next (pprev ps 0%nat) 0 (psucc ps 0%nat, false) (new, false)) (fun c =>
+         if negb (vok c) then k s false
+         else ia_levels fuel (h - 1) s key new h 1 ps (fun s' => k s' true) kf))).
+
+(** try_remove_at( pDel, pos, f ): marks, level-0 mark CAS, fast unlink *)
+Fixpoint tr_mark_one {R} (fuel : nat) (del : ptr) (l : nat) (cur : mptr) (k : prog R) (kf : prog R) {struct fuel} : prog R :=
+  (* while ( !( CAS( pSucc, pSucc | 1 ) || pSucc.bits() != 0 )) *)
+  match fuel with
+  | O => kf
+  | S f =>
+      Act (a_cas_next del l cur (fst cur, true)) (fun c =>
+        if vok c then k else if snd (vp c) then k else tr_mark_one f del l (vp c) k kf)
+  end.
+
+Fixpoint tr_mark_upper {R} (fuel : nat) (del : ptr) (n : nat) (k : prog R) (kf : prog R) {struct n} : prog R :=
+  (* for ( nLevel = height - 1; nLevel > 0; --nLevel ), n = nLevel *)
+  match n with
+  | O => k
+  | S n' =>
+      Act (a_ld_next del n) (fun v =>
+        if snd (vp v) then tr_mark_upper fuel del n' k kf
+        else tr_mark_one fuel del n (vp v) (tr_mark_upper fuel del n' k kf) kf)
+  end.
+
+Fixpoint tr_unlink {R} (fuel : nat) (s : TL) (key : Z) (del : ptr) (n : nat) (ps : pos)
+  (k : TL -> prog R) (kf : prog R) {struct n} : prog R :=
+  (* for ( nLevel = height - 1; nLevel >= 0; --nLevel ), n = nLevel + 1 *)
+  match n with
+  | O => k s                                   (* fast erase succeeded: gc::retire *)
+  | S l =>
+      Act (a_ld_next del l) (fun vs =>
+        Act (a_cas_next (pprev ps l) l (del, false) (fst (vp vs), false)) (fun c =>
+          if vok c then Act (a_fas_unl del 1) (fun _ => tr_unlink fuel s key del l ps k kf)
+          else find_position fuel s key false null ps (fun s' _ => k s') kf))
+  end.
+
+Fixpoint tr_lp {R} (fuel : nat) (s : TL) (key : Z) (del : ptr) (h : nat) (p : mptr) (ps : pos)
+  (k : TL -> bool -> prog R) (kf : prog R) {struct fuel} : prog R :=
+  match fuel with
+  | O => kf
+  | S f =>
+      Act (a_cas_next del 0 p (fst p, true)) (fun c =>
+        if vok c then tr_unlink fuel s key del h ps (fun s' => k s' true) kf
+        else if snd (vp c) then k s false
+        else tr_lp f s key del h (vp c) ps k kf)
+  end.
+
+Definition try_remove_at {R} (fuel : nat) (s : TL) (del : ptr) (h : nat) (ps : pos)
+  (k : TL -> bool -> prog R) (kf : prog R) : prog R :=
+  tr_mark_upper fuel del (h - 1)
+    (Act (a_ld_next del 0) (fun v => tr_lp fuel s (key_of del) del h (fst (vp v), false) ps k kf)) kf.
+
+Definition empty_pos (slots : list nat) : pos := mkPos (fun _ => null) (fun _ => null) null slots.
+
+Definition zl (l : list Z) : list Z := l.
+Definition ev_inv (code k : Z) : list ev := [EvCli "inv" [code; k]].
+Definition ev_res (a b : Z) : list ev := [EvCli "res" [a; b]].
+
+Definition finish {R} (s : TL) (a b : Z) (k : TL -> prog R) : prog R := Emit (ev_res a b) (k s).
+Definition out_of_fuel {R} (s : TL) (k : TL -> prog R) : prog R := Emit [EvCli "outoffuel" []] (k s).
+
+(** height of a node as its owner knows it *)
+Definition a_ld_nothing : G -> G * V * list ev := fun g => (g, VU, []).
+
+(** insert( val ): the item is constructed by the client just before (node constructor: m_nUnlink.store( 1 )) *)
+Fixpoint insert_loop {R} (fuel : nat) (s : TL) (key : Z) (new : ptr) (h : nat) (tower : bool) (ps : pos)
+  (k : TL -> bool -> prog R) (kf : prog R) {struct fuel} : prog R :=
+  match fuel with
+  | O => kf
+  | S f =>
+      find_position fuel s key true null ps (fun s1 o =>
+        match o with
+        | FpFound _ => k s1 false
+        | FpOwnRemoved => k s1 false
+        | FpNotFound ps1 =>
+            let build (cont : prog R) : prog R :=
+              if tower then cont
+              else if Nat.ltb 1 h then Act (a_st_unl new (Z.of_nat h) h) (fun _ => cont) else cont in
+            build (insert_at fuel s1 key new h ps1 (fun s2 ok =>
+              if ok then Act a_ld_hgt (fun _ => Act a_faa_cnt (fun _ => k s2 true))
+              else insert_loop f s2 key new h true ps1 k kf) kf)
+        end) kf
+  end.
+
+Definition op_insert {R} (fuel : nat) (s : TL) (k : nat) (h : nat) (cont : TL -> prog R) : prog R :=
+  let new := mk_node (tid s * 8 + ser s) k in
+  let s0 := mkTL (tid s) (fl s) (S (ser s)) in
+  Act (a_st_unl new 1 1) (fun _ =>
+    let (gnew, s1) := alloc1 s0 in
+    g_assign s1 gnew
+      (let (slots, s2) := allocn (2 * MAXH) s1 in
+       let fin (s' : TL) (b : bool) : prog R :=
+         g_free_all s' slots (fun s'' => g_clear s'' gnew (finish (free1 gnew s'') (if b then 1 else 0) 0 cont)) in
+       insert_loop fuel s2 (Z.of_nat k) new h false (empty_pos slots) fin
+         (g_free_all s2 slots (fun s'' => g_clear s'' gnew (out_of_fuel (free1 gnew s'') cont))))).
+
+(** erase_( val, cmp, f ) *)
+Definition op_erase {R} (fuel : nat) (s : TL) (k : nat) (cont : TL -> prog R) : prog R :=
+  let (slots, s1) := allocn (2 * MAXH) s in
+  let kf := g_free_all s1 slots (fun s' => out_of_fuel s' cont) in
+  find_position fuel s1 (Z.of_nat k) false null (empty_pos slots) (fun s2 o =>
+    match o with
+    | FpFound ps =>
+        let del := pcur ps in
+        let (gdel, s3) := alloc1 s2 in
+        g_assign s3 gdel
+          (Act a_ld_nothing (fun _ => Ret tt) ;; Ret tt) ;;
+        Ret tt
+    | _ => g_free_all s2 slots (fun s' => finish s' 0 0 cont)
+    end) kf.
